@@ -82,7 +82,7 @@ func runC04(p *Prog, r *Report) {
 			ordPrecede(p, r, fn, "close-before-sync", nil, twClose, "table.Writer.Close", evSync, "w.w.Sync")
 			ordPrecede(p, r, fn, "sync-before-handout", syncOn, evSync, "w.w.Sync", newTF, "newTableFile")
 			ordNotOnError(p, r, fn, "no-handout-on-close-error", mErrOfCall("(*leveldb/table.Writer).Close"), "table.Writer.Close", twClose, newTF, "newTableFile")
-			ordNotOnError(p, r, fn, "no-handout-on-sync-error", mErrOfCall("iface:leveldb/storage.Writer.Sync"), "w.w.Sync", evSync, newTF, "newTableFile")
+			ordNotOnError(p, r, fn, "no-handout-on-sync-error", mErrOfPred(evSync), "w.w.Sync", evSync, newTF, "newTableFile")
 		}
 		if fn := resolveFn(p, r, "leveldb", "(*tOps).createFrom"); fn != nil {
 			ordOnSuccess(p, r, fn, "via-finish", nil, evCall("(*leveldb.tWriter).finish"), "tWriter.finish")
@@ -143,7 +143,7 @@ func runC04(p *Prog, r *Report) {
 			ordPrecede(p, r, fn, "sync-before-state", syncOn, evSync, "manifestWriter.Sync", evCall(fRecCommitted), "recordCommited")
 			ordNotOnError(p, r, fn, "no-state-on-encode-error", mErrOfCall(fEncode), "rec.encode", evCall(fEncode), evCall(fRecCommitted), "recordCommited")
 			ordNotOnError(p, r, fn, "no-state-on-flush-error", mErrOfCall(fJFlush), "manifest.Flush", evCall(fJFlush), evCall(fRecCommitted), "recordCommited")
-			ordNotOnError(p, r, fn, "no-state-on-sync-error", mErrOfCall("iface:leveldb/storage.Writer.Sync"), "manifestWriter.Sync", evSync, evCall(fRecCommitted), "recordCommited")
+			ordNotOnError(p, r, fn, "no-state-on-sync-error", mErrOfPred(evSync), "manifestWriter.Sync", evSync, evCall(fRecCommitted), "recordCommited")
 		}
 		r.End()
 	}
@@ -312,15 +312,12 @@ func ruleAckAfterLog(p *Prog, r *Report, rule string) {
 		errWJ := mErrOfCall("(*leveldb.DB).writeJournal")
 		putMem := evCall("(*leveldb.Batch).putMem")
 		addSeq := evCall("(*leveldb.DB).addSeq")
-		okUnlock := andPred(evCall("(*leveldb.DB).unlockWrite"), func(in ssa.Instruction) bool {
-			cc := callCommon(in)
-			return cc != nil && len(cc.Args) == 4 && isNilConst(cc.Args[3])
-		})
+		okUnlock, ackDesc := ackPoints(fn)
 		ordPrecede(p, r, fn, "journal-before-putMem", nil, wj, "writeJournal", putMem, "batch.putMem")
 		ordPrecede(p, r, fn, "journal-before-addSeq", nil, wj, "writeJournal", addSeq, "db.addSeq")
-		ordPrecede(p, r, fn, "journal-before-ack", nil, wj, "writeJournal", okUnlock, "unlockWrite(.., nil)")
+		ordPrecede(p, r, fn, "journal-before-ack", nil, wj, "writeJournal", okUnlock, ackDesc)
 		ordNotOnError(p, r, fn, "putMem-not-on-journal-error", errWJ, "writeJournal", wj, putMem, "batch.putMem")
-		ordNotOnError(p, r, fn, "ack-not-on-journal-error", errWJ, "writeJournal", wj, okUnlock, "unlockWrite(.., nil)")
+		ordNotOnError(p, r, fn, "ack-not-on-journal-error", errWJ, "writeJournal", wj, okUnlock, ackDesc)
 	}
 	r.End()
 }
